@@ -223,6 +223,7 @@ class Scheduler(object):
         self.granularity = granularity
         self._locks = []
         self.stall = None
+        self.stalled_on = None     # index of the socket whose write stalled
         self.freezes = {}           # step -> (tid, microseconds)
 
     # -- objects handed to lomond
@@ -245,6 +246,7 @@ class Scheduler(object):
             # the peer stops reading: this sendall blocks (in the kernel)
             # for a while with half of the data out
             self.stats['stalled_writes'] += 1
+            self.stalled_on = sock._st.index
             self.w.fired('sendall_stalled_midway')
             us = int(st['us'])
             tmo = sock._st.timeout
@@ -351,7 +353,13 @@ class Scheduler(object):
             targets.append(w.timeline[0][0])
         if not targets:
             raise Deadlock('clock chosen with nothing to wait for')
-        w.advance(min(targets))
+        tgt = min(targets)
+        if any(t.state == 'runnable' for t in self.threads):
+            # time passes while a runnable thread is not running, but an
+            # operating system does not starve it for minutes in one go: the
+            # step is capped at one simulated second
+            tgt = min(tgt, w.now + 1000000)
+        w.advance(tgt)
         w.run_due()
         self.stats['clock_advances'] += 1
 
